@@ -848,69 +848,127 @@ def validate_traces(ck, traces, dev, quiet=False):
 PRED_SPEC = os.path.join(SPECS, "image", "MC_PredictedImage.tla")
 
 
+PREDICTED_CONFIGS = {
+    # label, Shapes, RowTypes, Palette
+    "quick": [("row-types", "ShapesQuick", "AllRowTypes", "Arithmetic"), ("paeth-ties", "ShapesTies", "PaethOnly", "PaletteTies")],
+    "thorough": [("row-types", "ShapesFull", "AllRowTypes", "Arithmetic"), ("paeth-ties", "ShapesTies", "TieRowTypes", "PaletteTiesFull")],
+}
+PREDICTED_TEETH = [("NoneKeepsAbove", "DevNone", "ShapesQuick", "AllRowTypes", "Arithmetic"),
+                   ("PaethTieByValue", "DevTie", "ShapesTies", "PaethOnly", "PaletteTies")]
+
+
+def predicted_samples(rec):
+    """Sample of PredictedImage.tla: the arithmetic pattern, or palette values assigned to the pixels"""
+    pk, w, h = rec["kind"], rec["w"], rec["h"]
+    _, _, ncomp = R.PIX[pk]
+    n = R.bytes_per_line(pk, w) * h
+    pal, pix = rec["pal"], rec["pix"]
+    if not pal:
+        return bytes((3 * q + 1) % 256 for q in range(n))
+    return bytes(pal[(pix[q // ncomp] - 1 + q % ncomp) % len(pal)] for q in range(n))
+
+
+def paeth_tie_classes(data, ncomp, w, h):
+    """which kinds of tie between the three Paeth distances the pixels of an 8-bit image produce (rows from the second on)"""
+    rl = ncomp * w
+    found = set()
+    for y in range(1, h):
+        for x in range(ncomp, rl):
+            a, b, c = data[y * rl + x - ncomp], data[(y - 1) * rl + x], data[(y - 1) * rl + x - ncomp]
+            p = a + b - c
+            pa, pb, pc = abs(p - a), abs(p - b), abs(p - c)
+            if pb == pc < pa and b != c:
+                found.add("pb=pc:above>upper-left" if b > c else "pb=pc:above<upper-left")
+            if pa == pc < pb and a != c:
+                found.add("pa=pc:left>upper-left" if a > c else "pa=pc:left<upper-left")
+            if pa == pb <= pc and a != b:
+                found.add("pa=pb:left#above")
+            if pa == pb == pc:
+                found.add("pa=pb=pc")
+    return found
+
+
 def direction_predicted(ck):
-    """specs/image/PredictedImage.tla: every sequence of row filter types; each image exported and read back"""
+    """specs/image/PredictedImage.tla: every sequence of row filter types, every assignment of tie-producing sample values; each
+    image exported and read back"""
     from ..realise import codecs as K
     mod = "RunP"
     wrapper = os.path.join(ck.tmp, mod + ".tla")
     with open(wrapper, "w") as f:
         f.write("---- MODULE %s ----\nEXTENDS MC_PredictedImage\n====\n" % mod)
-    cfg = write_cfg(os.path.join(ck.tmp, mod + ".cfg"),
-                    constants={"Shapes": "<- ShapesQuick" if ck.tier == "quick" else "<- ShapesFull", "DevChoices": "<- OnlyIntended"},
-                    invariants=["SamplesBack", "RefInverts", "EncLength"], constraints=["EmitTerminal"])
-    emit = os.path.join(ck.tmp, mod + ".ndjson")
-    res = run_tlc(wrapper, cfg, emit=emit, coverage=(ck.tier == "quick"), timeout=3600, lib=LIB)
-    ck.add_tlc(res, "PredictedImage: every sequence of row filter types")
-    if not res.ok:
-        raise MachineryError("PredictedImage.tla violates %s on the intended design:\n%s" % (res.violated, res.error_text[:3000]))
-    if res.actions:
-        require_coverage(res, ["AWriteRow", "AWriteDone", "AReadRow", "AReadDone"])
-    if ck.tier == "thorough":
-        cfg2 = write_cfg(os.path.join(ck.tmp, mod + "_teeth.cfg"), constants={"Shapes": "<- ShapesQuick", "DevChoices": "<- DevNone"},
+    for d, devset, shapes, rowtypes, palette in PREDICTED_TEETH:
+        if ck.tier != "thorough" and d != "PaethTieByValue":
+            continue
+        cfg2 = write_cfg(os.path.join(ck.tmp, mod + "_teeth.cfg"),
+                         constants={"Shapes": "<- " + shapes, "RowTypes": "<- " + rowtypes, "Palette": "<- " + palette, "DevChoices": "<- " + devset},
                          invariants=["P_SamplesBack"])
         r2 = run_tlc(wrapper, cfg2, workers=2, timeout=600, lib=LIB)
-        ck.add_tlc(r2, "counterexample search: NoneKeepsAbove against P_SamplesBack")
+        ck.add_tlc(r2, "counterexample search: %s against P_SamplesBack" % d)
         if r2.ok or r2.violated != "P_SamplesBack":
-            raise MachineryError("vacuous: NoneKeepsAbove does not violate SamplesBack in PredictedImage.tla")
-    outroot = tempfile.mkdtemp(dir=ck.tmp)
-    n = 0
-    pairs = set()
-    for line in open(emit):
-        rec = json.loads(line)
-        n += 1
-        pk, w, h, types = rec["kind"], rec["w"], rec["h"], rec["types"]
-        bits, _, ncomp = R.PIX[pk]
-        data = bytes((3 * q + 1) % 256 for q in range(R.bytes_per_line(pk, w) * h))      # Sample of PredictedImage.tla
-        # two references against each other: the harness's predictor / un-predictor and the TLA+ row operators
-        if K.png_predict(data, ncomp, w, bits, types) != bytes(rec["enc"]) or bytes(rec["out"]) != data \
-                or K.png_ref_unpredict(bytes(rec["enc"]), ncomp, w, bits) != data:
-            raise MachineryError("PNG predictor references disagree for %s %dx%d row types %s" % (pk, w, h, types))
-        chain = [["FlatePNG"], ["LZWPNG"], ["A85", "FlatePNG"]][n % 3]
-        im = {"name": "P", "filters": chain, "pk": pk, "w": w, "h": h, "row_types": types, "samples": data}
-        outdir = tempfile.mkdtemp(dir=outroot)
-        err, files, _ = R.run_export(R.export_doc([im], variant=n), outdir)
-        shutil.rmtree(outdir, ignore_errors=True)
-        rp = {"imgs": [im], "preexisting": [], "origin": "predicted rows", "variant": n}
-        what = "%s %dx%d through %s with PNG row filter types %s" % (pk, w, h, "+".join(chain), types)
-        pairs.update(zip(types, types[1:]))
-        ck.case(1, ("png-rows", pk, w, h, tuple(types)))
-        ck.replayed += 1
-        if err:
-            ck.violation("exception:" + err, "export of %s raised %s" % (what, err), rp)
-            continue
-        blob = files.get("P.bmp")
-        if blob is None:
-            ck.violation("format:" + ",".join(files), "%s exported as %r, not as a bitmap" % (what, sorted(files)), rp)
-            continue
-        for wy in classify_bmp(blob, R.pdf_pixels(pk, w, h, data), w, h, {"bw": 1, "gray": 8, "rgb": 24}[pk]):
-            ck.violation("bmp:" + wy.split(":")[0], "P.bmp does not read back as the samples of %s: %s" % (what, wy), rp)
-    os.remove(emit)
-    shutil.rmtree(outroot, ignore_errors=True)
-    if n != res.emitted or n == 0:
-        raise MachineryError("emitted %d terminal states but read %d" % (res.emitted, n))
-    if len(pairs) != 25:
-        raise MachineryError("only %d of the 25 pairs of consecutive row filter types were realised" % len(pairs))
-    ck.extra["png_row_type_sequences_replayed"] = n
+            raise MachineryError("vacuous: %s does not violate SamplesBack in PredictedImage.tla" % d)
+    total = 0
+    for label, shapes, rowtypes, palette in PREDICTED_CONFIGS[ck.tier]:
+        cfg = write_cfg(os.path.join(ck.tmp, mod + ".cfg"),
+                        constants={"Shapes": "<- " + shapes, "RowTypes": "<- " + rowtypes, "Palette": "<- " + palette, "DevChoices": "<- OnlyIntended"},
+                        invariants=["SamplesBack", "RefInverts", "EncLength"], constraints=["EmitTerminal"])
+        emit = os.path.join(ck.tmp, mod + ".ndjson")
+        res = run_tlc(wrapper, cfg, emit=emit, coverage=(ck.tier == "quick"), timeout=3600, lib=LIB)
+        ck.add_tlc(res, "PredictedImage %s: %s" % (label, "every sequence of row filter types" if label == "row-types"
+                                                  else "every assignment of tie-producing sample values under the Paeth filter"))
+        if not res.ok:
+            raise MachineryError("PredictedImage.tla violates %s on the intended design:\n%s" % (res.violated, res.error_text[:3000]))
+        if res.actions:
+            require_coverage(res, ["AWriteRow", "AWriteDone", "AReadRow", "AReadDone"])
+        outroot = tempfile.mkdtemp(dir=ck.tmp)
+        n = 0
+        pairs = set()
+        ties = set()
+        for line in open(emit):
+            rec = json.loads(line)
+            n += 1
+            pk, w, h, types = rec["kind"], rec["w"], rec["h"], rec["types"]
+            bits, _, ncomp = R.PIX[pk]
+            data = predicted_samples(rec)
+            # two references against each other: the harness's predictor / un-predictor and the TLA+ row operators
+            if K.png_predict(data, ncomp, w, bits, types) != bytes(rec["enc"]) or bytes(rec["out"]) != data \
+                    or K.png_ref_unpredict(bytes(rec["enc"]), ncomp, w, bits) != data:
+                raise MachineryError("PNG predictor references disagree for %s %dx%d row types %s" % (pk, w, h, types))
+            if label == "paeth-ties" and types[-1] == 4:
+                ties |= paeth_tie_classes(data, ncomp, w, h)
+            chain = [["FlatePNG"], ["LZWPNG"], ["A85", "FlatePNG"]][n % 3]
+            im = {"name": "P", "filters": chain, "pk": pk, "w": w, "h": h, "row_types": types, "samples": data}
+            outdir = tempfile.mkdtemp(dir=outroot)
+            err, files, _ = R.run_export(R.export_doc([im], variant=n), outdir)
+            shutil.rmtree(outdir, ignore_errors=True)
+            rp = {"imgs": [im], "preexisting": [], "origin": "predicted rows", "variant": n}
+            what = "%s %dx%d (samples %s) through %s with PNG row filter types %s" % (pk, w, h, list(data) if len(data) <= 12 else "..",
+                                                                                   "+".join(chain), types)
+            pairs.update(zip(types, types[1:]))
+            ck.case(1, ("png-rows", label, pk, w, h, tuple(types), tuple(rec["pix"])))
+            ck.replayed += 1
+            if err:
+                ck.violation("exception:" + err, "export of %s raised %s" % (what, err), rp)
+                continue
+            blob = files.get("P.bmp")
+            if blob is None:
+                ck.violation("format:" + ",".join(files), "%s exported as %r, not as a bitmap" % (what, sorted(files)), rp)
+                continue
+            for wy in classify_bmp(blob, R.pdf_pixels(pk, w, h, data), w, h, {"bw": 1, "gray": 8, "rgb": 24}[pk]):
+                ck.violation("bmp:" + wy.split(":")[0], "P.bmp does not read back as the samples of %s: %s" % (what, wy), rp)
+        os.remove(emit)
+        shutil.rmtree(outroot, ignore_errors=True)
+        if n != res.emitted or n == 0:
+            raise MachineryError("emitted %d terminal states but read %d" % (res.emitted, n))
+        if label == "row-types" and len(pairs) != 25:
+            raise MachineryError("only %d of the 25 pairs of consecutive row filter types were realised" % len(pairs))
+        if label == "paeth-ties":
+            need = {"pb=pc:above>upper-left", "pb=pc:above<upper-left", "pa=pc:left>upper-left", "pa=pc:left<upper-left"}
+            if not need <= ties or "pa=pb:left#above" in ties:
+                raise MachineryError("Paeth ties realised: %s; wanted %s (pa = pb <= pc with left # above cannot occur)" % (sorted(ties), sorted(need)))
+            ck.extra["paeth_tie_classes_realised"] = sorted(ties)
+        total += n
+        ck.extra.setdefault("predicted_images_per_config", {})[label] = n
+    ck.extra["png_row_type_sequences_replayed"] = total
 
 
 # ================================================================================================ JBIG2 (extended coverage)
